@@ -9,6 +9,7 @@
 package main
 
 import (
+	"fmt"
 	"go/ast"
 	"go/constant"
 	"go/parser"
@@ -559,4 +560,484 @@ func condSaysNotPositive(e ast.Expr, name string) bool {
 		}
 	}
 	return false
+}
+
+// retrydecision: GenericPolicy.Retry, statement by statement, as a Gallina decision function
+//
+//	if attempt <op> p.MaxRetry { return -1, nil }
+//	if ok, err := p.Retryable(resp, err); err != nil { return -1, err } else if !ok { return -1, nil }
+//	backoff := p.Backoff(attempt, resp)
+//	if backoff <op> p.F { backoff = p.G } ...          (any number of clamping steps, in order)
+//	return backoff, nil
+//
+// -> Definition <coq> (attempt max_retry min_wait max_wait : Z) (pr : pred_result) (bo : bres) : decision.
+// Comparison operators, the fields compared and assigned and the order of the steps are taken from
+// the source; any other statement or condition is untranslatable.
+func init() { kinds["retrydecision"] = kindRetryDecision }
+
+func kindRetryDecision(x *Ctx, it Item) {
+	what := it.File + ":" + it.Recv + "." + it.Func
+	fd := findFunc(x.File(it.File), it.Recv, it.Func)
+	if fd == nil || fd.Recv == nil || len(fd.Recv.List) != 1 || len(fd.Recv.List[0].Names) != 1 {
+		fail("%s: method not found", what)
+	}
+	recv := fd.Recv.List[0].Names[0].Name
+	ps := fd.Type.Params.List
+	if len(ps) != 3 || len(ps[0].Names) != 1 {
+		fail("%s: unexpected parameters", what)
+	}
+	attempt := ps[0].Names[0].Name
+	fieldVar := map[string]string{"MaxRetry": "max_retry", "MinWait": "min_wait", "MaxWait": "max_wait"}
+	field := func(e ast.Expr) (string, bool) {
+		sel, ok := e.(*ast.SelectorExpr)
+		if !ok {
+			return "", false
+		}
+		if id, ok := sel.X.(*ast.Ident); !ok || id.Name != recv {
+			return "", false
+		}
+		v, ok := fieldVar[sel.Sel.Name]
+		return v, ok
+	}
+	cmp := map[token.Token]string{token.LSS: "<?", token.LEQ: "<=?", token.GTR: ">?", token.GEQ: ">=?", token.EQL: "=?"}
+	isMinus1 := func(e ast.Expr) bool {
+		u, ok := e.(*ast.UnaryExpr)
+		return ok && u.Op == token.SUB && isLit(u.X, "1")
+	}
+	retIs := func(s ast.Stmt, second string) bool { // return -1, <second>
+		blk, ok := s.(*ast.BlockStmt)
+		if !ok || len(blk.List) != 1 {
+			return false
+		}
+		r, ok := blk.List[0].(*ast.ReturnStmt)
+		return ok && len(r.Results) == 2 && isMinus1(r.Results[0]) && isIdent(r.Results[1], second)
+	}
+	body := fd.Body.List
+	if len(body) < 4 {
+		fail("%s: body too short", what)
+	}
+	// 1. attempt bound
+	s1, ok := body[0].(*ast.IfStmt)
+	if !ok || s1.Init != nil || s1.Else != nil || !retIs(s1.Body, "nil") {
+		fail("%s: statement 1 is not `if %s <op> %s.MaxRetry { return -1, nil }`", what, attempt, recv)
+	}
+	c1, ok := s1.Cond.(*ast.BinaryExpr)
+	if !ok || !isIdent(c1.X, attempt) || cmp[c1.Op] == "" {
+		fail("%s: statement 1 has an unsupported condition", what)
+	}
+	f1, ok := field(c1.Y)
+	if !ok {
+		fail("%s: statement 1 does not compare with a policy field", what)
+	}
+	// 2. predicate
+	s2, ok := body[1].(*ast.IfStmt)
+	if !ok || s2.Init == nil {
+		fail("%s: statement 2 is not the predicate call", what)
+	}
+	as, ok := s2.Init.(*ast.AssignStmt)
+	if !ok || len(as.Lhs) != 2 || len(as.Rhs) != 1 {
+		fail("%s: statement 2 is not `if ok, err := %s.Retryable(...)`", what, recv)
+	}
+	okName, errName := as.Lhs[0].(*ast.Ident), as.Lhs[1].(*ast.Ident)
+	call, isCall := as.Rhs[0].(*ast.CallExpr)
+	if okName == nil || errName == nil || !isCall {
+		fail("%s: statement 2 is not `if ok, err := %s.Retryable(...)`", what, recv)
+	}
+	if sel, ok := call.Fun.(*ast.SelectorExpr); !ok || sel.Sel.Name != "Retryable" || !isIdent(sel.X, recv) || len(call.Args) != 2 {
+		fail("%s: statement 2 does not call %s.Retryable(resp, err)", what, recv)
+	}
+	c2, ok := s2.Cond.(*ast.BinaryExpr)
+	if !ok || c2.Op != token.NEQ || !isIdent(c2.X, errName.Name) || !isIdent(c2.Y, "nil") || !retIs(s2.Body, errName.Name) {
+		fail("%s: statement 2 is not `...; err != nil { return -1, err }`", what)
+	}
+	e2, ok := s2.Else.(*ast.IfStmt)
+	if !ok || e2.Init != nil || e2.Else != nil || !retIs(e2.Body, "nil") {
+		fail("%s: statement 2 lacks `else if !ok { return -1, nil }`", what)
+	}
+	if u, ok := e2.Cond.(*ast.UnaryExpr); !ok || u.Op != token.NOT || !isIdent(u.X, okName.Name) {
+		fail("%s: statement 2 lacks `else if !ok { return -1, nil }`", what)
+	}
+	// 3. backoff
+	s3, ok := body[2].(*ast.AssignStmt)
+	if !ok || len(s3.Lhs) != 1 || len(s3.Rhs) != 1 {
+		fail("%s: statement 3 is not `backoff := %s.Backoff(attempt, resp)`", what, recv)
+	}
+	bv, ok := s3.Lhs[0].(*ast.Ident)
+	bc, ok2 := s3.Rhs[0].(*ast.CallExpr)
+	if !ok || !ok2 {
+		fail("%s: statement 3 is not `backoff := %s.Backoff(attempt, resp)`", what, recv)
+	}
+	if sel, ok := bc.Fun.(*ast.SelectorExpr); !ok || sel.Sel.Name != "Backoff" || !isIdent(sel.X, recv) || len(bc.Args) != 2 || !isIdent(bc.Args[0], attempt) {
+		fail("%s: statement 3 does not call %s.Backoff(attempt, resp)", what, recv)
+	}
+	// 4.. clamping steps
+	var steps []string
+	for _, st := range body[3 : len(body)-1] {
+		is, ok := st.(*ast.IfStmt)
+		if !ok || is.Init != nil || is.Else != nil || len(is.Body.List) != 1 {
+			fail("%s: unsupported statement between the backoff call and the return", what)
+		}
+		c, ok := is.Cond.(*ast.BinaryExpr)
+		if !ok || !isIdent(c.X, bv.Name) || cmp[c.Op] == "" {
+			fail("%s: unsupported clamping condition", what)
+		}
+		fc, ok := field(c.Y)
+		a, ok2 := is.Body.List[0].(*ast.AssignStmt)
+		if !ok || !ok2 || a.Tok != token.ASSIGN || len(a.Lhs) != 1 || len(a.Rhs) != 1 || !isIdent(a.Lhs[0], bv.Name) {
+			fail("%s: unsupported clamping step", what)
+		}
+		fa, ok := field(a.Rhs[0])
+		if !ok {
+			fail("%s: clamping step does not assign a policy field", what)
+		}
+		steps = append(steps, fmt.Sprintf("    let backoff := if (backoff %s %s)%%Z then %s else backoff in", cmp[c.Op], fc, fa))
+	}
+	// last: return backoff, nil
+	last, ok := body[len(body)-1].(*ast.ReturnStmt)
+	if !ok || len(last.Results) != 2 || !isIdent(last.Results[0], bv.Name) || !isIdent(last.Results[1], "nil") {
+		fail("%s: last statement is not `return backoff, nil`", what)
+	}
+	x.Printf("From Oras Require Import Base.RetryTypes.\n(* %s, statement by statement *)\n", what)
+	x.Printf("Definition %s (attempt max_retry min_wait max_wait : Z) (pr : pred_result) (bo : bres) : decision :=\n", coqName(it))
+	x.Printf("  if (attempt %s %s)%%Z then DStop else\n  match pr with\n  | PFail => DFail\n  | PStop => DStop\n  | PRetry =>\n    match bo with\n    | BPanic => DPanic\n    | BRet backoff =>\n", cmp[c1.Op], f1)
+	for _, s := range steps {
+		x.Printf("  %s\n", s)
+	}
+	x.Printf("      DWait backoff\n    end\n  end.\n\n")
+}
+
+// rewindchain: the body-rewind logic, as a decision over four facts about the request:
+// body_nil (Body == nil), body_nobody (Body == http.NoBody), getbody_nil (GetBody == nil),
+// getbody_fails (the GetBody call returns an error) -> rw_class (Base/RetryTypes.v):
+// RcKeep (nothing to do, go on), RcFresh (Body replaced by GetBody's result, go on),
+// RcNoGetBody / RcGetBodyErr (give up before / after calling GetBody).
+//
+// args.block = "": the whole function <func> (auth.rewindRequestBody):
+//	if <cond over the facts> { return nil }           -> RcKeep
+//	if <cond> { return <error> }                      -> RcNoGetBody
+//	body, err := req.GetBody(); if err != nil { return <error> }   -> RcGetBodyErr
+//	req.Body = body; return nil                       -> RcFresh
+// args.block = "<var>": inside <func>, the statement `if <cond over the facts> { ...same chain
+// with `return ...` giving up... }` that calls <var>.GetBody() (retry.Transport.RoundTrip);
+// falling out of the block after the assignment is RcFresh, not entering it RcKeep.
+func init() { kinds["rewindchain"] = kindRewindChain }
+
+func rwFact(e ast.Expr, req string) (string, bool) {
+	switch x := e.(type) {
+	case *ast.ParenExpr:
+		return rwFact(x.X, req)
+	case *ast.UnaryExpr:
+		if x.Op == token.NOT {
+			if s, ok := rwFact(x.X, req); ok {
+				return "(negb " + s + ")", true
+			}
+		}
+	case *ast.BinaryExpr:
+		switch x.Op {
+		case token.LOR, token.LAND:
+			a, ok1 := rwFact(x.X, req)
+			b, ok2 := rwFact(x.Y, req)
+			if ok1 && ok2 {
+				op := " || "
+				if x.Op == token.LAND {
+					op = " && "
+				}
+				return "(" + a + op + b + ")", true
+			}
+		case token.EQL, token.NEQ:
+			sel, ok := x.X.(*ast.SelectorExpr)
+			if !ok || !isIdent(sel.X, req) {
+				return "", false
+			}
+			atom := ""
+			switch {
+			case sel.Sel.Name == "Body" && isIdent(x.Y, "nil"):
+				atom = "body_nil"
+			case sel.Sel.Name == "GetBody" && isIdent(x.Y, "nil"):
+				atom = "getbody_nil"
+			case sel.Sel.Name == "Body":
+				if s2, ok := x.Y.(*ast.SelectorExpr); ok && isIdent(s2.X, "http") && s2.Sel.Name == "NoBody" {
+					atom = "body_nobody"
+				}
+			}
+			if atom == "" {
+				return "", false
+			}
+			if x.Op == token.NEQ {
+				return "(negb " + atom + ")", true
+			}
+			return atom, true
+		}
+	}
+	return "", false
+}
+
+// rwChain translates a statement list; returns the Gallina expression.  tail = the class when
+// the list is left at its end.
+func rwChain(list []ast.Stmt, req, what string, wholeFunc bool) string {
+	var out strings.Builder
+	called, assigned := false, false
+	closeN := 0
+	for i, st := range list {
+		switch s := st.(type) {
+		case *ast.IfStmt:
+			if s.Init != nil || s.Else != nil || len(s.Body.List) != 1 {
+				fail("%s: unsupported if statement in the rewind chain", what)
+			}
+			ret, ok := s.Body.List[0].(*ast.ReturnStmt)
+			if !ok {
+				fail("%s: an if of the rewind chain does not return", what)
+			}
+			if called {
+				// if err != nil { give up }
+				be, ok := s.Cond.(*ast.BinaryExpr)
+				if !ok || be.Op != token.NEQ || !isIdent(be.X, "err") || !isIdent(be.Y, "nil") || assigned {
+					fail("%s: unsupported statement after the GetBody call", what)
+				}
+				out.WriteString("if getbody_fails then RcGetBodyErr else ")
+				continue
+			}
+			c, ok := rwFact(s.Cond, req)
+			if !ok {
+				fail("%s: condition of the rewind chain is not over Body/GetBody of %s", what, req)
+			}
+			cls := "RcNoGetBody"
+			if wholeFunc && len(ret.Results) == 1 && isIdent(ret.Results[0], "nil") {
+				cls = "RcKeep"
+			}
+			out.WriteString("if " + c + " then " + cls + " else ")
+		case *ast.AssignStmt:
+			if !called {
+				// body, err := req.GetBody()
+				call, ok := s.Rhs[0].(*ast.CallExpr)
+				if !ok || len(s.Lhs) != 2 || len(call.Args) != 0 {
+					fail("%s: unsupported assignment in the rewind chain", what)
+				}
+				sel, ok := call.Fun.(*ast.SelectorExpr)
+				if !ok || sel.Sel.Name != "GetBody" || !isIdent(sel.X, req) || !isIdent(s.Lhs[1], "err") {
+					fail("%s: unsupported assignment in the rewind chain", what)
+				}
+				called = true
+				continue
+			}
+			// req.Body = body
+			sel, ok := s.Lhs[0].(*ast.SelectorExpr)
+			if !ok || len(s.Lhs) != 1 || sel.Sel.Name != "Body" || !isIdent(sel.X, req) {
+				fail("%s: unsupported assignment after the GetBody call", what)
+			}
+			assigned = true
+		case *ast.ReturnStmt:
+			if !wholeFunc || i != len(list)-1 || !assigned || len(s.Results) != 1 || !isIdent(s.Results[0], "nil") {
+				fail("%s: unsupported return in the rewind chain", what)
+			}
+		default:
+			fail("%s: unsupported statement in the rewind chain", what)
+		}
+	}
+	_ = closeN
+	if !called || !assigned {
+		fail("%s: the rewind chain does not call GetBody and install its result", what)
+	}
+	out.WriteString("RcFresh")
+	return out.String()
+}
+
+func kindRewindChain(x *Ctx, it Item) {
+	what := it.File + ":" + it.Recv + "." + it.Func + " (rewind)"
+	fd := findFunc(x.File(it.File), it.Recv, it.Func)
+	if fd == nil {
+		fail("%s: function not found", what)
+	}
+	block, _ := it.Args["block"].(string)
+	var expr string
+	if block == "" {
+		if len(fd.Type.Params.List) != 1 || len(fd.Type.Params.List[0].Names) != 1 {
+			fail("%s: unexpected parameters", what)
+		}
+		expr = rwChain(fd.Body.List, fd.Type.Params.List[0].Names[0].Name, what, true)
+	} else {
+		var found *ast.IfStmt
+		ast.Inspect(fd.Body, func(n ast.Node) bool {
+			is, ok := n.(*ast.IfStmt)
+			if !ok || found != nil {
+				return true
+			}
+			calls := false
+			ast.Inspect(is.Body, func(m ast.Node) bool {
+				if c, ok := m.(*ast.CallExpr); ok {
+					if sel, ok := c.Fun.(*ast.SelectorExpr); ok && sel.Sel.Name == "GetBody" && isIdent(sel.X, block) {
+						calls = true
+					}
+				}
+				return true
+			})
+			if calls {
+				found = is
+				return false
+			}
+			return true
+		})
+		if found == nil || found.Init != nil || found.Else != nil {
+			fail("%s: no `if ... { ... %s.GetBody() ... }` block", what, block)
+		}
+		c, ok := rwFact(found.Cond, block)
+		if !ok {
+			fail("%s: the guard of the rewind block is not over Body/GetBody of %s", what, block)
+		}
+		expr = "if " + c + " then (" + rwChain(found.Body.List, block, what, false) + ") else RcKeep"
+	}
+	x.Printf("From Oras Require Import Base.RetryTypes.\n(* %s *)\n", what)
+	x.Printf("Definition %s (body_nil body_nobody getbody_nil getbody_fails : bool) : rw_class :=\n  %s.\n\n", coqName(it), expr)
+}
+
+// backoffexprs: the arithmetic of ExponentialBackoff's returned closure, as rational functions
+// (float64 is modelled by exact rationals), and the constants of its Retry-After branch:
+//
+//	if resp != nil && resp.StatusCode == <status> {                 -> <coq>_retry_after_status : Z
+//	    ... if retryAfter, _ := strconv.ParseInt(v, 10, 64); retryAfter <op> <k> {   -> <coq>_retry_after_ok (ra : Z) : bool
+//	        return time.Duration(retryAfter) * <unit>               -> <coq>_retry_after_unit : Z
+//	temp := <expr over backoff, factor, attempt>                    -> <coq>_temp (backoff : Z) (factor jitter : Q) (attempt : Z) : Q
+//	interval := time.Duration(<expr over temp, jitter>)             -> <coq>_a (temp jitter : Q) : Q
+//	... n := int64(<expr over temp, jitter>) ...                    -> <coq>_n (temp jitter : Q) : Q
+func init() { kinds["backoffexprs"] = kindBackoffExprs }
+
+func qExpr(f *ast.File, e ast.Expr, what string) string {
+	switch x := e.(type) {
+	case *ast.ParenExpr:
+		return qExpr(f, x.X, what)
+	case *ast.BasicLit:
+		v := constant.ToFloat(constant.MakeFromLiteral(x.Value, x.Kind, 0))
+		return fmt.Sprintf("(Qmake (%s)%%Z (%s)%%positive)", constant.Num(v).ExactString(), constant.Denom(v).ExactString())
+	case *ast.Ident:
+		switch x.Name {
+		case "temp", "jitter", "factor":
+			return x.Name
+		}
+	case *ast.BinaryExpr:
+		op := map[token.Token]string{token.MUL: "Qmult", token.ADD: "Qplus", token.SUB: "Qminus", token.QUO: "Qdiv"}[x.Op]
+		if op != "" {
+			return "(" + op + " " + qExpr(f, x.X, what) + " " + qExpr(f, x.Y, what) + ")"
+		}
+	case *ast.CallExpr:
+		if id, ok := x.Fun.(*ast.Ident); ok && id.Name == "float64" && len(x.Args) == 1 {
+			if isIdent(x.Args[0], "backoff") {
+				return "(inject_Z backoff)"
+			}
+		}
+		if sel, ok := x.Fun.(*ast.SelectorExpr); ok && isIdent(sel.X, "math") && sel.Sel.Name == "Pow" && len(x.Args) == 2 {
+			if c, ok := x.Args[1].(*ast.CallExpr); ok && isIdent(c.Fun, "float64") && len(c.Args) == 1 && isIdent(c.Args[0], "attempt") {
+				return "(Qpower " + qExpr(f, x.Args[0], what) + " attempt)"
+			}
+		}
+	}
+	fail("%s: arithmetic expression has an unsupported shape", what)
+	return ""
+}
+
+func kindBackoffExprs(x *Ctx, it Item) {
+	what := it.File + ":" + it.Func
+	f := x.File(it.File)
+	fd := findFunc(f, it.Recv, it.Func)
+	if fd == nil {
+		fail("%s: function not found", what)
+	}
+	name := coqName(it)
+	var temp, a, n ast.Expr
+	status, unit, okCond := "", "", ""
+	ast.Inspect(fd.Body, func(nd ast.Node) bool {
+		switch s := nd.(type) {
+		case *ast.AssignStmt:
+			if len(s.Lhs) == 1 && len(s.Rhs) == 1 && s.Tok == token.DEFINE {
+				switch {
+				case isIdent(s.Lhs[0], "temp"):
+					temp = s.Rhs[0]
+				case isIdent(s.Lhs[0], "interval"):
+					if c, ok := s.Rhs[0].(*ast.CallExpr); ok && len(c.Args) == 1 {
+						a = c.Args[0]
+					}
+				case isIdent(s.Lhs[0], "n"):
+					if c, ok := s.Rhs[0].(*ast.CallExpr); ok && isIdent(c.Fun, "int64") && len(c.Args) == 1 {
+						n = c.Args[0]
+					}
+				}
+			}
+		case *ast.IfStmt:
+			// resp != nil && resp.StatusCode == <status>
+			if be, ok := s.Cond.(*ast.BinaryExpr); ok && be.Op == token.LAND {
+				if r, ok := be.Y.(*ast.BinaryExpr); ok && r.Op == token.EQL {
+					if sel, ok := r.X.(*ast.SelectorExpr); ok && sel.Sel.Name == "StatusCode" {
+						if v, ok := statusOperand(r.Y, "\x00", what); ok {
+							status = v
+						}
+					}
+				}
+			}
+			// retryAfter, _ := strconv.ParseInt(...); retryAfter <op> <k>
+			if as, ok := s.Init.(*ast.AssignStmt); ok && len(as.Lhs) == 2 && isIdent(as.Lhs[0], "retryAfter") {
+				if be, ok := s.Cond.(*ast.BinaryExpr); ok && isIdent(be.X, "retryAfter") {
+					op := map[token.Token]string{token.GTR: ">?", token.GEQ: ">=?", token.LSS: "<?", token.LEQ: "<=?"}[be.Op]
+					if lit, ok := be.Y.(*ast.BasicLit); ok && op != "" && lit.Kind == token.INT {
+						okCond = fmt.Sprintf("(ra %s %s)%%Z", op, lit.Value)
+					}
+				}
+				if len(s.Body.List) == 1 {
+					if r, ok := s.Body.List[0].(*ast.ReturnStmt); ok && len(r.Results) == 1 {
+						if be, ok := r.Results[0].(*ast.BinaryExpr); ok && be.Op == token.MUL {
+							if c, ok := be.X.(*ast.CallExpr); ok && len(c.Args) == 1 && isIdent(c.Args[0], "retryAfter") {
+								unit = evalConst(f, be.Y, what).ExactString()
+							}
+						}
+					}
+				}
+			}
+		}
+		return true
+	})
+	if temp == nil || a == nil || n == nil || status == "" || unit == "" || okCond == "" {
+		fail("%s: cannot find temp/interval/n or the Retry-After branch (status, positivity test, unit)", what)
+	}
+	x.Printf("From Coq Require Import QArith.\n(* %s: arithmetic and Retry-After constants *)\n", what)
+	x.Printf("Definition %s_retry_after_status : Z := (%s)%%Z.\n", name, status)
+	x.Printf("Definition %s_retry_after_ok (ra : Z) : bool := %s.\n", name, okCond)
+	x.Printf("Definition %s_retry_after_unit : Z := (%s)%%Z.\n", name, unit)
+	x.Printf("Definition %s_temp (backoff : Z) (factor jitter : Q) (attempt : Z) : Q :=\n  %s.\n", name, qExpr(f, temp, what))
+	x.Printf("Definition %s_a (temp jitter : Q) : Q :=\n  %s.\n", name, qExpr(f, a, what))
+	x.Printf("Definition %s_n (temp jitter : Q) : Q :=\n  %s.\n\n", name, qExpr(f, n, what))
+}
+
+// statuscmps: every comparison `<x>.StatusCode <op> <status constant>` inside function <func>, in
+// source order -> Definition <coq> : list (Z * Z)  (operator code: 0 ==, 1 !=, 2 <, 3 <=, 4 >, 5 >=;
+// status).  The model reads the statuses it depends on (challenge 401, upload accepted 202, token
+// 200 ...) from these lists, so an edited constant or an added/removed comparison shows up.
+func init() { kinds["statuscmps"] = kindStatusCmps }
+
+func kindStatusCmps(x *Ctx, it Item) {
+	what := it.File + ":" + it.Recv + "." + it.Func
+	fd := findFunc(x.File(it.File), it.Recv, it.Func)
+	if fd == nil {
+		fail("%s: function not found", what)
+	}
+	opCode := map[token.Token]int{token.EQL: 0, token.NEQ: 1, token.LSS: 2, token.LEQ: 3, token.GTR: 4, token.GEQ: 5}
+	var items []string
+	ast.Inspect(fd.Body, func(n ast.Node) bool {
+		be, ok := n.(*ast.BinaryExpr)
+		if !ok {
+			return true
+		}
+		sel, ok := be.X.(*ast.SelectorExpr)
+		if !ok || sel.Sel.Name != "StatusCode" {
+			return true
+		}
+		code, okc := opCode[be.Op]
+		v, okv := statusOperand(be.Y, "\x00", what)
+		if !okc || !okv {
+			fail("%s: a StatusCode comparison has an unsupported shape", what)
+		}
+		items = append(items, fmt.Sprintf("(%d, %s)%%Z", code, v))
+		return true
+	})
+	if len(items) == 0 {
+		fail("%s: no StatusCode comparison", what)
+	}
+	x.Printf("(* %s: StatusCode comparisons in source order (operator code, status) *)\nDefinition %s : list (Z * Z) := [%s].\n\n", what, coqName(it), strings.Join(items, "; "))
 }
